@@ -212,6 +212,22 @@ struct GA
 template <typename T, typename U, bool M, bool S, bool E> bool operator== (const GA<T, M, S, E>& a, const GA<U, M, S, E>& b) noexcept { return E || a.id == b.id; }
 template <typename T, typename U, bool M, bool S, bool E> bool operator!= (const GA<T, M, S, E>& a, const GA<U, M, S, E>& b) noexcept { return ! (a == b); }
 
+// like GA<T, true, true, false> but its default constructor may throw
+template <typename T>
+struct GT
+{
+  typedef T value_type;
+  typedef std::true_type propagate_on_container_move_assignment;
+  typedef std::true_type propagate_on_container_swap;
+  int id;
+  GT () noexcept (false) : id (0) { }
+  template <typename U> GT (const GT<U>& o) noexcept : id (o.id) { }
+  T *allocate (std::size_t n);
+  void deallocate (T *, std::size_t) noexcept;
+};
+template <typename T, typename U> bool operator== (const GT<T>& a, const GT<U>& b) noexcept { return a.id == b.id; }
+template <typename T, typename U> bool operator!= (const GT<T>& a, const GT<U>& b) noexcept { return ! (a == b); }
+
 #define NX(EXPR) int (noexcept (EXPR))
 template <typename T, unsigned N, typename A>
 void row (const char *tag)
@@ -277,7 +293,7 @@ def c18_rows():
     for mc in (0, 1):
         for ma in (0, 1):
             for sw in (0, 1):
-                for alloc in ("std", "ae", "m0s0", "m1s0", "m0s1", "m1s1"):
+                for alloc in ("std", "ae", "m0s0", "m1s0", "m0s1", "m1s1", "thr"):
                     for n in (0, 3):
                         rows.append((mc, ma, sw, alloc, n))
     return rows
@@ -288,16 +304,18 @@ def c18_alloc_type(alloc, T):
         return "std::allocator<%s>" % T
     if alloc == "ae":
         return "GA<%s, false, false, true>" % T
+    if alloc == "thr":
+        return "GT<%s>" % T
     m = alloc[1] == "1"
     s = alloc[3] == "1"
     return "GA<%s, %s, %s, false>" % (T, "true" if m else "false", "true" if s else "false")
 
 
 def c18_expected(mc, ma, sw, alloc, n, ae_ok):
-    am = alloc == "std" or (alloc.startswith("m1")) or (alloc == "ae" and ae_ok)
-    as_ = alloc == "std" or (alloc in ("m0s1", "m1s1")) or (alloc == "ae" and ae_ok)
+    am = alloc == "std" or (alloc.startswith("m1")) or (alloc == "ae" and ae_ok) or alloc == "thr"
+    as_ = alloc == "std" or (alloc in ("m0s1", "m1s1")) or (alloc == "ae" and ae_ok) or alloc == "thr"
     e = {}
-    e["dflt"] = 1
+    e["dflt"] = 0 if alloc == "thr" else 1     # noexcept (allocator_type ())
     e["allocctor"] = 1
     e["move"] = int(bool(mc) or n == 0)
     e["moveG"] = 0
